@@ -52,6 +52,7 @@ impl Family for C17Family {
         let n_ops = r.range(1, 6);
         let mut n_reg = 0u32;
         let mut used_empty = false;
+        let mut last_reg: Option<(Vec<u8>, Vec<u8>)> = None;
         for _ in 0..n_ops {
             let kind = match r.below(10) {
                 0..=3 => {
@@ -69,7 +70,14 @@ impl Family for C17Family {
                         handle[0] = n_reg as u8; // pairwise distinct handles
                     }
                     n_reg += 1;
-                    OpKind::U2fRegister { challenge: r.bytes(32), application: r.bytes(32), handle, le: r.bool() }
+                    let mut application = r.bytes(32);
+                    // now and then the same key handle is registered again for the same application
+                    if let (Some((h, a)), true) = (&last_reg, r.chance(1, 6)) {
+                        handle = h.clone();
+                        application = a.clone();
+                    }
+                    last_reg = Some((handle.clone(), application.clone()));
+                    OpKind::U2fRegister { challenge: r.bytes(32), application, handle, le: r.bool() }
                 }
                 4..=7 => OpKind::U2fAuthenticate {
                     challenge: r.bytes(32),
@@ -101,7 +109,7 @@ impl Family for C17Family {
         let c = ceremony_of(scn);
         let rec = run_and_measure(c, stats);
         let mut j = Judge::new("C17", scn, &rec);
-        for p in ["registration_verified", "authentication_verified", "unknown_handle_rejected", "empty_key_handle", "key_handle_255", "frame_with_le", "save_error_reported", "authentication_for_other_application", "version_frame_with_nonzero_le"] {
+        for p in ["key_handle_registered_again", "registration_verified", "authentication_verified", "unknown_handle_rejected", "empty_key_handle", "key_handle_255", "frame_with_le", "save_error_reported", "authentication_for_other_application", "version_frame_with_nonzero_le"] {
             stats.declare_probe(p);
         }
         if let Some(p) = &rec.panic {
@@ -168,6 +176,9 @@ impl Family for C17Family {
                     want.extend_from_slice(&[0x90, 0x00]);
                     if r.encoded != want {
                         j.fail("register-encoding", format!("op a{}#{}: encoded registration response {} differs from 05||04||x||y||len||keyHandle||cert||sig||9000 = {}", o.actor, o.idx, hex(&r.encoded), hex(&want)));
+                    }
+                    if keys.contains_key(handle) {
+                        stats.probe("key_handle_registered_again");
                     }
                     keys.insert(handle.clone(), (application.clone(), vk));
                 }
